@@ -3,6 +3,7 @@ import Witverif.Abi.Gen
 import Witverif.Abi.CSig
 import Witverif.Abi.CProfile
 import Witverif.Text.CIdent
+import Witverif.Abi.Names
 import Drivers.Util
 import Drivers.AbiParse
 /-! Driver `m_chost` (C10, C11, C12): the Lean canonical-ABI specification acting as the
@@ -126,8 +127,12 @@ def handle (line : String) : String :=
       | some n => charsToHex (Witverif.Text.CIdent.toCIdent n)
       | none => "bad-request"
   | ["dtor", m, n] =>
-      match hexToChars m, hexToChars n with
-      | some m, some n => charsToHex (CProfile.cDtorExportName m n) ++ " " ++ charsToHex (CProfileSpec.dtorExportName m n)
+      match hexToStr m, hexToStr n with
+      | some m, some n =>
+          let spec := match Names.Spec.dtor .sync (.name m) n with
+            | some e => e.name
+            | none => "?"
+          strToHex (CProfile.cDtorExportName m n) ++ " " ++ strToHex spec
       | _, _ => "bad-request"
   | ["csig", fl, ps, r] =>
       match parseOne ps, parseOne r with
